@@ -4,6 +4,7 @@ package interp
 // and contract stubs for callees the interpreter cannot execute.
 
 import (
+	"go/token"
 	"encoding/json"
 	"fmt"
 	"go/types"
@@ -434,6 +435,69 @@ func init() {
 		r.ghostSig[&cell] = ghostSig{key, pay}
 		return iface{t: types.NewPointer(dp.Type("Signature").Type()), v: &cell}
 	}
+	// BindKeyPair(priv, pub): the public half of a private key object (contract stubs of dsig key methods)
+	intrinsics[v+"BindKeyPair"] = func(fr *frame, args []value) value {
+		r := fr.i.run
+		if r.ghostKeys == nil {
+			r.ghostKeys = map[*value]*value{}
+		}
+		priv, _ := args[0].(iface).v.(*value)
+		pub, _ := args[1].(iface).v.(*value)
+		r.ghostKeys[priv] = pub
+		return nil
+	}
+	intrinsics["(*github.com/invopop/gobl/dsig.PrivateKey).Public"] = func(fr *frame, args []value) value {
+		priv, _ := args[0].(*value)
+		if priv == nil {
+			panic(runtimeError("invalid memory address or nil pointer dereference"))
+		}
+		pub, ok := fr.i.run.ghostKeys[priv]
+		if !ok {
+			return notHandled{}
+		}
+		return pub
+	}
+	// Sign: contract stub - a signature carrying a JWS, bound to the key's public half and to a deep private
+	// copy of the payload as it is now (what serialising it into the JWS would capture)
+	intrinsics["(*github.com/invopop/gobl/dsig.PrivateKey).Sign"] = func(fr *frame, args []value) value {
+		r := fr.i.run
+		priv, _ := args[0].(*value)
+		if priv == nil {
+			panic(runtimeError("invalid memory address or nil pointer dereference"))
+		}
+		pub, ok := r.ghostKeys[priv]
+		if !ok {
+			return notHandled{}
+		}
+		if f, ok := r.ghostFlags["sign.fails"]; ok {
+			if b, isB := f.(bool); isB && b {
+				return tuple{(*value)(nil), fr.i.opaqueError("signing failed", iface{})}
+			}
+		}
+		pay, ok := args[1].(iface)
+		if !ok || pay.t == nil {
+			unsup("Sign of a nil payload")
+		}
+		pp, _ := pay.v.(*value)
+		if pp == nil {
+			unsup("Sign of a nil pointer payload")
+		}
+		cp := deepCopyValue(pp, map[*value]*value{}).(*value)
+		dp := fr.i.prog.ImportedPackage("github.com/invopop/gobl/dsig")
+		jp := fr.i.prog.ImportedPackage("github.com/go-jose/go-jose/v4")
+		if dp == nil || jp == nil {
+			unsup("dsig / go-jose not loaded")
+		}
+		var jws value = zero(jp.Type("JSONWebSignature").Type())
+		st := zero(dp.Type("Signature").Type()).(structure)
+		st[0] = &jws
+		var cell value = st
+		if r.ghostSig == nil {
+			r.ghostSig = map[*value]ghostSig{}
+		}
+		r.ghostSig[&cell] = ghostSig{pub, cp}
+		return tuple{&cell, iface{}}
+	}
 	intrinsics[v+"BindParsed"] = func(fr *frame, args []value) value {
 		fr.i.run.ghostParsed = args[0].(iface).v
 		return nil
@@ -764,6 +828,23 @@ func init() {
 		var cell value = st
 		return &cell
 	}
+	// Digest.String() = algorithm + ";" + value: for an abstract digest value, an injective function of it (per algorithm)
+	intrinsics["(*github.com/invopop/gobl/dsig.Digest).String"] = func(fr *frame, args []value) value {
+		p, _ := args[0].(*value)
+		if p == nil {
+			return notHandled{}
+		}
+		st, ok := (*p).(structure)
+		if !ok {
+			return notHandled{}
+		}
+		o, isO := st[1].(opq)
+		alg, isS := st[0].(string)
+		if !isO || !isS {
+			return notHandled{}
+		}
+		return opq{uf(fr, "DIGESTSTR_"+alg, o.t), -1}
+	}
 	flagErr := func(fr *frame, name string) (value, bool) {
 		f, ok := fr.i.run.ghostFlags[name]
 		if !ok {
@@ -773,6 +854,41 @@ func init() {
 			return iface{}, true
 		}
 		return fr.i.opaqueError(name+" failed", iface{}), true
+	}
+	// a document object bound to an abstract content token has content
+	intrinsics["(*github.com/invopop/gobl/schema.Object).IsEmpty"] = func(fr *frame, args []value) value {
+		p, _ := args[0].(*value)
+		if p != nil && fr.i.run.ghostContent != nil {
+			if _, ok := fr.i.run.ghostContent[p]; ok {
+				return false
+			}
+		}
+		return notHandled{}
+	}
+	// document validation outcome fixed by the harness: "document.valid" (always consulted) and
+	// "document.valid.signed" (additionally required when the context says the envelope is signed)
+	intrinsics["(*github.com/invopop/gobl/schema.Object).ValidateWithContext"] = func(fr *frame, args []value) value {
+		r := fr.i.run
+		f, ok := r.ghostFlags["document.valid"]
+		if !ok {
+			return notHandled{}
+		}
+		if b, isB := f.(bool); isB && !b {
+			return fr.i.opaqueError("document invalid", iface{})
+		}
+		if f2, ok := r.ghostFlags["document.valid.signed"]; ok {
+			if b, isB := f2.(bool); isB && !b {
+				ip := fr.i.prog.ImportedPackage("github.com/invopop/gobl/internal")
+				if ip == nil {
+					unsup("internal package not loaded")
+				}
+				signed := call(fr.i, fr, token.NoPos, ip.Func("IsSigned"), []value{args[1]})
+				if sb, isB := signed.(bool); isB && sb {
+					return fr.i.opaqueError("document invalid when signed", iface{})
+				}
+			}
+		}
+		return iface{}
 	}
 	intrinsics["(*github.com/invopop/gobl/schema.Object).Calculate"] = func(fr *frame, args []value) value {
 		if v, ok := flagErr(fr, "document.Calculate"); ok {
@@ -867,6 +983,62 @@ func (i *interpreter) vrtType(name string) types.Type {
 		unsup("vrt type %s missing", name)
 	}
 	return m.Type()
+}
+
+// deepCopyValue copies a value graph (pointers, slices, structs, arrays, interfaces; maps unsupported).
+func deepCopyValue(v value, seen map[*value]*value) value {
+	switch x := v.(type) {
+	case *value:
+		if x == nil {
+			return x
+		}
+		if c, ok := seen[x]; ok {
+			return c
+		}
+		c := new(value)
+		seen[x] = c
+		*c = deepCopyValue(*x, seen)
+		return c
+	case []value:
+		if x == nil {
+			return x
+		}
+		out := make([]value, len(x))
+		for k := range x {
+			out[k] = deepCopyValue(x[k], seen)
+		}
+		return out
+	case structure:
+		out := make(structure, len(x))
+		for k := range x {
+			out[k] = deepCopyValue(x[k], seen)
+		}
+		return out
+	case array:
+		out := make(array, len(x))
+		for k := range x {
+			out[k] = deepCopyValue(x[k], seen)
+		}
+		return out
+	case iface:
+		return iface{t: x.t, v: deepCopyValue(x.v, seen)}
+	case *omap:
+		if x == nil {
+			return x
+		}
+		out := makeMap(x.kt, 0).(*omap)
+		for _, e := range x.entries {
+			if e.live {
+				out.entries = append(out.entries, oentry{key: e.key, val: deepCopyValue(e.val, seen), live: true})
+				if h, ok := keyHash(out.kt, e.key); ok {
+					out.index[h] = append(out.index[h], len(out.entries)-1)
+				}
+				out.n++
+			}
+		}
+		return out
+	}
+	return v
 }
 
 func (i *interpreter) opaqueError(msg string, wrapped value) value {
